@@ -128,7 +128,7 @@ func newRuleFlagSet() *ruleFlagSet {
 	rule.flagSet.Var((*valueFilterList)(&rule.Filters), "F", "filter")
 	rule.flagSet.Var(&rule.Syscalls, "S", "syscall name, number, or 'all'")
 	rule.flagSet.Var(&rule.Permissions, "p", "access type - r=read, w=write, x=execute, a=attribute change")
-	rule.flagSet.StringVar(&rule.Path, "w", "", "path to watch, no wildcards")
+	rule.flagSet.Var((*pathFlag)(&rule.Path), "w", "path to watch, no wildcards")
 	rule.flagSet.Var(&rule.Key, "k", "key")
 
 	return rule
@@ -317,6 +317,10 @@ type addFlag struct {
 }
 
 func (f *addFlag) Set(value string) error {
+	if *f != (addFlag{}) {
+		return fmt.Errorf("list and action specified more than once: '%v'", value)
+	}
+
 	parts := strings.Split(value, ",")
 	if len(parts) > 2 {
 		return fmt.Errorf("expected a list type and action but got '%v'", value)
@@ -345,6 +349,21 @@ func (f *addFlag) Set(value string) error {
 func (f *addFlag) String() string {
 	return fmt.Sprintf("%v,%v", f.List, f.Action)
 }
+
+// --- pathFlag ---
+
+// pathFlag is a flag type for the path of a file watch. It can be given once.
+type pathFlag string
+
+func (f *pathFlag) Set(value string) error {
+	if *f != "" {
+		return fmt.Errorf("path specified more than once: '%v'", value)
+	}
+	*f = pathFlag(value)
+	return nil
+}
+
+func (f *pathFlag) String() string { return string(*f) }
 
 // --- fileAccessTypeFlags ---
 
